@@ -8,3 +8,4 @@ INVARIANT CutoffOnlyIn38
 INVARIANT UnsignedNeverDecreases
 CONSTRAINT Export
 INVARIANT LinesPositive
+INVARIANT LocRoundTrip
